@@ -462,6 +462,8 @@ class RebuildMacroInContextVisitor(Visitor):
         # Whether a gate set is in force, i.e. every gate must be defined in
         # the gate context.
         self.require_defined = require_defined
+        # How many parallel or subcircuit blocks we are inside of.
+        self.restricted_depth = 0
 
     def visit_Macro(self, macro):
         changed, new_body = self.visit(macro.body)
@@ -473,10 +475,15 @@ class RebuildMacroInContextVisitor(Visitor):
     def visit_BlockStatement(self, block):
         changed = False
         new_statements = []
-        for stmt in block.statements:
-            stmt_changed, new_stmt = self.visit(stmt)
-            changed = changed or stmt_changed
-            new_statements.append(new_stmt)
+        restricted = block.parallel or block.subcircuit
+        self.restricted_depth += restricted
+        try:
+            for stmt in block.statements:
+                stmt_changed, new_stmt = self.visit(stmt)
+                changed = changed or stmt_changed
+                new_statements.append(new_stmt)
+        finally:
+            self.restricted_depth -= restricted
         if changed:
             return changed, BlockStatement(
                 parallel=block.parallel,
@@ -524,6 +531,11 @@ class RebuildMacroInContextVisitor(Visitor):
             if gate_def == gate.gate_def:
                 return False, gate
 
+            if self.restricted_depth and contains_subcircuit(gate_def.body):
+                # The same rule as for a call built in context.
+                raise JaqalError(
+                    f"Nesting subcircuit (in macro {gate.name}) in subcircuit or parallel block"
+                )
             args = gate.parameters.values()
             new_gate = gate_def(*args)
             return True, new_gate
